@@ -299,6 +299,13 @@ class SR:
         engine().note_division(self.t)
         return SR(rterm(o) / self.t, _or_nan(self.nan, nanflag(o)))
 
+    def __bool__(self):
+        # Python truthiness of a float: x != 0 (NaN is truthy)
+        t = self.t != 0
+        if self.nan is not None:
+            t = z3.Or(self.nan, t)
+        return engine().decide(t)
+
     def __neg__(self):
         return SR(-self.t, self.nan)
 
